@@ -52,6 +52,9 @@ struct SchedulerBlockInfo {
     batch_mode: BatchMode,
     /// Whether this block has `NextStrategy::OnlyOne`.
     is_only_one_strategy: bool,
+    /// The declared replication of the block, for the verification graph dump.
+    #[cfg(feature = "verif")]
+    replication: Replication,
 }
 
 /// The `Scheduler` is the entity that keeps track of all the blocks of the job graph and when the
@@ -368,6 +371,8 @@ impl Scheduler {
             global_ids: global_ids.into_iter().collect(),
             batch_mode: block.batch_mode,
             is_only_one_strategy: block.is_only_one_strategy,
+            #[cfg(feature = "verif")]
+            replication,
         }
     }
 
@@ -438,6 +443,59 @@ impl Scheduler {
             global_ids,
             batch_mode: block.batch_mode,
             is_only_one_strategy: block.is_only_one_strategy,
+            #[cfg(feature = "verif")]
+            replication,
+        }
+    }
+}
+
+#[cfg(feature = "verif")]
+impl Scheduler {
+    /// Build the execution graph and the network addresses without starting any worker and
+    /// describe them.
+    pub(crate) fn verif_graph_dump(mut self) -> crate::verif::GraphDump {
+        use crate::verif::{BlockDump, GraphDump};
+        self.build_execution_graph();
+        self.network.build();
+
+        let mut blocks: Vec<BlockDump> = self
+            .block_info
+            .iter()
+            .map(|(&block_id, info)| {
+                let mut replicas: Vec<_> = info
+                    .global_ids
+                    .iter()
+                    .map(|(&c, &g)| (c.into(), g))
+                    .collect();
+                replicas.sort();
+                BlockDump {
+                    block_id,
+                    replication: info.replication.into(),
+                    is_only_one_strategy: info.is_only_one_strategy,
+                    replicas,
+                    replicas_in_metadata_order: info
+                        .replicas
+                        .values()
+                        .flatten()
+                        .map(|&c| c.into())
+                        .collect(),
+                }
+            })
+            .collect();
+        blocks.sort();
+        let mut job_edges: Vec<_> = self
+            .next_blocks
+            .iter()
+            .flat_map(|(&from, next)| next.iter().map(move |&(to, _, fragile)| (from, to, fragile)))
+            .collect();
+        job_edges.sort();
+        let (links, demux_addresses) = self.network.verif_dump();
+        GraphDump {
+            host_id: self.config.host_id().unwrap(),
+            blocks,
+            job_edges,
+            links,
+            demux_addresses,
         }
     }
 }
